@@ -1187,6 +1187,11 @@ pub fn gen_module(rng: &mut Rng, cfg: &GenCfg) -> Generated {
     for f in &export_funcs {
         export_sec.export(&format!("f{}_{}", f, rand_name(rng)), ExportKind::Func, *f);
         nexports += 1;
+        if rng.chance(1, 5) {
+            // the same function under a second name
+            export_sec.export(&format!("f{}_again_{}", f, rand_name(rng)), ExportKind::Func, *f);
+            nexports += 1;
+        }
     }
     for (i, _) in tables.iter().enumerate() {
         if rng.chance(1, 3) {
@@ -1296,7 +1301,20 @@ pub fn gen_module(rng: &mut Rng, cfg: &GenCfg) -> Generated {
         }
         n_elem += 1;
     }
-    // functions in element segments are also declared, but we keep `declared` = exported ones (subset)
+    // functions that are declared *only* by a declarative element segment (not exported): ref.func on
+    // them is valid exactly as long as that segment survives
+    let mut declared = declared;
+    if cfg.ref_types && cfg.bulk && rng.chance(1, 3) {
+        let cands: Vec<u32> = (0..funcs.len() as u32).filter(|f| !export_funcs.contains(f)).collect();
+        if !cands.is_empty() {
+            let n = rng.range(1, 2) as usize;
+            let picked: Vec<u32> = (0..n).map(|_| *rng.pick(&cands)).collect();
+            elem_sec.declared(Elements::Functions(&picked));
+            elem_tys.push(VT::FuncRef);
+            n_elem += 1;
+            declared.extend(picked);
+        }
+    }
     // ---- data segments
     let mut data_sec = DataSection::new();
     let ndata = if mems.is_empty() && !cfg.bulk { 0 } else { rng.below(4) };
